@@ -2,6 +2,7 @@
 C11 — reading the regenerated table ReaderGuards (conditions of openapi3/loader_uri_reader.go as expression trees)
 against the reader model of KinModel/ReadsMedium.lean.
 -/
+import KinModel.Reads
 import KinModel.ReadsMedium
 import KinModel.Gen.ReaderGuards
 namespace KinModel.Reads
@@ -42,5 +43,11 @@ def tableDeclines (fn : String) (l : RLoc) : Option Bool :=
   (guardRows fn "decline-if").foldl (fun acc r =>
     match acc, evalG (fun f => if f = "is_file" then tableIsFile l else none) l r.exp with
     | some x, some y => some (x || y) | _, _ => none) (some false)
+
+/-- a location of the loader model as the `url.URL` the reader is handed -/
+def Url.toRLoc (u : Url) : RLoc := ⟨u.scheme, u.host, (if u.rooted then "/" else "") ++ "/".intercalate u.segs⟩
+
+/-- the media the library's default reader touches when it serves a read log -/
+def mediaOf (log : List Url) : List Medium := log.map (fun u => defaultRead u.toRLoc)
 
 end KinModel.Reads
